@@ -37,6 +37,14 @@
 /* Avoid ctype.h and locale overhead */
 #define is_plain_digit(c) ((c) >= '0' && (c) <= '9')
 
+/* A serializer must fail, not return truncated text, when the print buffer can't grow */
+#define PB_CHECK(call)        \
+	do                    \
+	{                     \
+		if ((call) < 0) \
+			return -1; \
+	} while (0)
+
 #if SIZEOF_LONG_LONG != SIZEOF_INT64_T
 #error The long long type is not 64-bits
 #endif
@@ -208,24 +216,24 @@ static int json_escape_str(struct printbuf *pb, const char *str, size_t len, int
 			}
 
 			if (pos > start_offset)
-				printbuf_memappend(pb, str + start_offset, pos - start_offset);
+				PB_CHECK(printbuf_memappend(pb, str + start_offset, pos - start_offset));
 
 			if (c == '\b')
-				printbuf_memappend(pb, "\\b", 2);
+				PB_CHECK(printbuf_memappend(pb, "\\b", 2));
 			else if (c == '\n')
-				printbuf_memappend(pb, "\\n", 2);
+				PB_CHECK(printbuf_memappend(pb, "\\n", 2));
 			else if (c == '\r')
-				printbuf_memappend(pb, "\\r", 2);
+				PB_CHECK(printbuf_memappend(pb, "\\r", 2));
 			else if (c == '\t')
-				printbuf_memappend(pb, "\\t", 2);
+				PB_CHECK(printbuf_memappend(pb, "\\t", 2));
 			else if (c == '\f')
-				printbuf_memappend(pb, "\\f", 2);
+				PB_CHECK(printbuf_memappend(pb, "\\f", 2));
 			else if (c == '"')
-				printbuf_memappend(pb, "\\\"", 2);
+				PB_CHECK(printbuf_memappend(pb, "\\\"", 2));
 			else if (c == '\\')
-				printbuf_memappend(pb, "\\\\", 2);
+				PB_CHECK(printbuf_memappend(pb, "\\\\", 2));
 			else if (c == '/')
-				printbuf_memappend(pb, "\\/", 2);
+				PB_CHECK(printbuf_memappend(pb, "\\/", 2));
 
 			start_offset = ++pos;
 			break;
@@ -234,11 +242,10 @@ static int json_escape_str(struct printbuf *pb, const char *str, size_t len, int
 			{
 				char sbuf[7];
 				if (pos > start_offset)
-					printbuf_memappend(pb, str + start_offset,
-					                   pos - start_offset);
+					PB_CHECK(printbuf_memappend(pb, str + start_offset, pos - start_offset));
 				snprintf(sbuf, sizeof(sbuf), "\\u00%c%c", json_hex_chars[c >> 4],
 				         json_hex_chars[c & 0xf]);
-				printbuf_memappend_fast(pb, sbuf, (int)sizeof(sbuf) - 1);
+				PB_CHECK(printbuf_memappend(pb, sbuf, (int)sizeof(sbuf) - 1));
 				start_offset = ++pos;
 			}
 			else
@@ -246,7 +253,7 @@ static int json_escape_str(struct printbuf *pb, const char *str, size_t len, int
 		}
 	}
 	if (pos > start_offset)
-		printbuf_memappend(pb, str + start_offset, pos - start_offset);
+		PB_CHECK(printbuf_memappend(pb, str + start_offset, pos - start_offset));
 	return 0;
 }
 
@@ -443,19 +450,20 @@ const char *json_object_to_json_string(struct json_object *jso)
 	return json_object_to_json_string_ext(jso, JSON_C_TO_STRING_SPACED);
 }
 
-static void indent(struct printbuf *pb, int level, int flags)
+static int indent(struct printbuf *pb, int level, int flags)
 {
 	if (flags & JSON_C_TO_STRING_PRETTY)
 	{
 		if (flags & JSON_C_TO_STRING_PRETTY_TAB)
 		{
-			printbuf_memset(pb, -1, '\t', level);
+			return printbuf_memset(pb, -1, '\t', level);
 		}
 		else
 		{
-			printbuf_memset(pb, -1, ' ', level * 2);
+			return printbuf_memset(pb, -1, ' ', level * 2);
 		}
 	}
+	return 0;
 }
 
 /* json_object_object */
@@ -466,47 +474,47 @@ static int json_object_object_to_json_string(struct json_object *jso, struct pri
 	int had_children = 0;
 	struct json_object_iter iter;
 
-	printbuf_strappend(pb, "{" /*}*/);
+	PB_CHECK(printbuf_strappend(pb, "{" /*}*/));
 	json_object_object_foreachC(jso, iter)
 	{
 		if (had_children)
 		{
-			printbuf_strappend(pb, ",");
+			PB_CHECK(printbuf_strappend(pb, ","));
 		}
 		if (flags & JSON_C_TO_STRING_PRETTY)
-			printbuf_strappend(pb, "\n");
+			PB_CHECK(printbuf_strappend(pb, "\n"));
 		had_children = 1;
 		if (flags & JSON_C_TO_STRING_SPACED && !(flags & JSON_C_TO_STRING_PRETTY))
-			printbuf_strappend(pb, " ");
-		indent(pb, level + 1, flags);
+			PB_CHECK(printbuf_strappend(pb, " "));
+		PB_CHECK(indent(pb, level + 1, flags));
 		if (flags & JSON_C_TO_STRING_COLOR)
-			printbuf_strappend(pb, ANSI_COLOR_FG_BLUE);
+			PB_CHECK(printbuf_strappend(pb, ANSI_COLOR_FG_BLUE));
 
-		printbuf_strappend(pb, "\"");
-		json_escape_str(pb, iter.key, strlen(iter.key), flags);
-		printbuf_strappend(pb, "\"");
+		PB_CHECK(printbuf_strappend(pb, "\""));
+		PB_CHECK(json_escape_str(pb, iter.key, strlen(iter.key), flags));
+		PB_CHECK(printbuf_strappend(pb, "\""));
 
 		if (flags & JSON_C_TO_STRING_COLOR)
-			printbuf_strappend(pb, ANSI_COLOR_RESET);
+			PB_CHECK(printbuf_strappend(pb, ANSI_COLOR_RESET));
 
 		if (flags & JSON_C_TO_STRING_SPACED)
-			printbuf_strappend(pb, ": ");
+			PB_CHECK(printbuf_strappend(pb, ": "));
 		else
-			printbuf_strappend(pb, ":");
+			PB_CHECK(printbuf_strappend(pb, ":"));
 
 		if (iter.val == NULL) {
 			if (flags & JSON_C_TO_STRING_COLOR)
-				printbuf_strappend(pb, ANSI_COLOR_FG_MAGENTA);
-			printbuf_strappend(pb, "null");
+				PB_CHECK(printbuf_strappend(pb, ANSI_COLOR_FG_MAGENTA));
+			PB_CHECK(printbuf_strappend(pb, "null"));
 			if (flags & JSON_C_TO_STRING_COLOR)
-				printbuf_strappend(pb, ANSI_COLOR_RESET);
+				PB_CHECK(printbuf_strappend(pb, ANSI_COLOR_RESET));
 		} else if (iter.val->_to_json_string(iter.val, pb, level + 1, flags) < 0)
 			return -1;
 	}
 	if ((flags & JSON_C_TO_STRING_PRETTY) && had_children)
 	{
-		printbuf_strappend(pb, "\n");
-		indent(pb, level, flags);
+		PB_CHECK(printbuf_strappend(pb, "\n"));
+		PB_CHECK(indent(pb, level, flags));
 	}
 	if (flags & JSON_C_TO_STRING_SPACED && !(flags & JSON_C_TO_STRING_PRETTY))
 		return printbuf_strappend(pb, /*{*/ " }");
@@ -656,7 +664,7 @@ static int json_object_boolean_to_json_string(struct json_object *jso, struct pr
 	int ret;
 
 	if (flags & JSON_C_TO_STRING_COLOR)
-		printbuf_strappend(pb, ANSI_COLOR_FG_MAGENTA);
+		PB_CHECK(printbuf_strappend(pb, ANSI_COLOR_FG_MAGENTA));
 
 	if (JC_BOOL(jso)->c_boolean)
 		ret = printbuf_strappend(pb, "true");
@@ -1160,7 +1168,7 @@ static int json_object_double_to_json_string_format(struct json_object *jso, str
 		// The standard formats are guaranteed not to overrun the buffer,
 		// but if a custom one happens to do so, just silently truncate.
 		size = sizeof(buf) - 1;
-	printbuf_memappend(pb, buf, size);
+	PB_CHECK(printbuf_memappend(pb, buf, size));
 	return size;
 }
 
@@ -1221,7 +1229,7 @@ int json_object_userdata_to_json_string(struct json_object *jso, struct printbuf
                                         int flags)
 {
 	int userdata_len = strlen((const char *)jso->_userdata);
-	printbuf_memappend(pb, (const char *)jso->_userdata, userdata_len);
+	PB_CHECK(printbuf_memappend(pb, (const char *)jso->_userdata, userdata_len));
 	return userdata_len;
 }
 
@@ -1305,12 +1313,12 @@ static int json_object_string_to_json_string(struct json_object *jso, struct pri
 {
 	ssize_t len = JC_STRING(jso)->len;
 	if (flags & JSON_C_TO_STRING_COLOR)
-		printbuf_strappend(pb, ANSI_COLOR_FG_GREEN);
-	printbuf_strappend(pb, "\"");
-	json_escape_str(pb, get_string_component(jso), len < 0 ? -(ssize_t)len : len, flags);
-	printbuf_strappend(pb, "\"");
+		PB_CHECK(printbuf_strappend(pb, ANSI_COLOR_FG_GREEN));
+	PB_CHECK(printbuf_strappend(pb, "\""));
+	PB_CHECK(json_escape_str(pb, get_string_component(jso), len < 0 ? -(ssize_t)len : len, flags));
+	PB_CHECK(printbuf_strappend(pb, "\""));
 	if (flags & JSON_C_TO_STRING_COLOR)
-		printbuf_strappend(pb, ANSI_COLOR_RESET);
+		PB_CHECK(printbuf_strappend(pb, ANSI_COLOR_RESET));
 	return 0;
 }
 
@@ -1468,36 +1476,36 @@ static int json_object_array_to_json_string(struct json_object *jso, struct prin
 	int had_children = 0;
 	size_t ii;
 
-	printbuf_strappend(pb, "[");
+	PB_CHECK(printbuf_strappend(pb, "["));
 	for (ii = 0; ii < json_object_array_length(jso); ii++)
 	{
 		struct json_object *val;
 		if (had_children)
 		{
-			printbuf_strappend(pb, ",");
+			PB_CHECK(printbuf_strappend(pb, ","));
 		}
 		if (flags & JSON_C_TO_STRING_PRETTY)
-			printbuf_strappend(pb, "\n");
+			PB_CHECK(printbuf_strappend(pb, "\n"));
 		had_children = 1;
 		if (flags & JSON_C_TO_STRING_SPACED && !(flags & JSON_C_TO_STRING_PRETTY))
-			printbuf_strappend(pb, " ");
-		indent(pb, level + 1, flags);
+			PB_CHECK(printbuf_strappend(pb, " "));
+		PB_CHECK(indent(pb, level + 1, flags));
 		val = json_object_array_get_idx(jso, ii);
 		if (val == NULL) {
 
 			if (flags & JSON_C_TO_STRING_COLOR)
-				printbuf_strappend(pb, ANSI_COLOR_FG_MAGENTA);
-			printbuf_strappend(pb, "null");
+				PB_CHECK(printbuf_strappend(pb, ANSI_COLOR_FG_MAGENTA));
+			PB_CHECK(printbuf_strappend(pb, "null"));
 			if (flags & JSON_C_TO_STRING_COLOR)
-				printbuf_strappend(pb, ANSI_COLOR_RESET);
+				PB_CHECK(printbuf_strappend(pb, ANSI_COLOR_RESET));
 
 		} else if (val->_to_json_string(val, pb, level + 1, flags) < 0)
 			return -1;
 	}
 	if ((flags & JSON_C_TO_STRING_PRETTY) && had_children)
 	{
-		printbuf_strappend(pb, "\n");
-		indent(pb, level, flags);
+		PB_CHECK(printbuf_strappend(pb, "\n"));
+		PB_CHECK(indent(pb, level, flags));
 	}
 
 	if (flags & JSON_C_TO_STRING_SPACED && !(flags & JSON_C_TO_STRING_PRETTY))
